@@ -33,7 +33,7 @@ Qed.
 
 Section T.
   Variable eoff eline : nat.
-  Notation run := (run eoff eline).
+  Notation run := (arun eoff eline).
 
   Definition good (fuel : nat) (m : mode) (s : list atok) (acc : list aug) : Prop :=
     exists s' a', run fuel m s acc = Some (s', a') /\ length s' <= length s /\
@@ -46,7 +46,7 @@ Section T.
     { destruct m; simpl in Hf; lia. }
     (* sub-calls *)
     assert (CALL : forall m' s' acc', 3 * length s' + mcost m' <= f -> mpre m' s' -> good f m' s' acc') by (intros; apply IH; assumption).
-    unfold good. destruct m; cbn [Augment.run].
+    unfold good. destruct m; cbn [Augment.arun].
     - (* MProcess *)
       destruct s as [|t s']; [simpl; eexists _, _; split; [reflexivity|split; [simpl; lia|intros _ H; congruence]]|].
       cbn [kcur]. destruct (a_kind t) eqn:K;
@@ -75,18 +75,18 @@ Section T.
       destruct s as [|t s']; [simpl; eexists _, _; split; [reflexivity|split; [simpl; lia|intros [H|H]; discriminate]]|].
       cbn [kcur]. destruct (a_kind t) eqn:K;
         try (eexists _, _; split; [reflexivity|split; [simpl; lia|intros [H|H]; discriminate]]);
-        try (cbn [nxt tl]; match goal with |- context [Augment.run _ _ _ (MFLLoop ?e ?n) s' acc] =>
+        try (cbn [nxt tl]; match goal with |- context [Augment.arun _ _ _ (MFLLoop ?e ?n) s' acc] =>
                destruct (CALL (MFLLoop e n) s' acc) as [s1 [a1 [R [L1 _]]]]; [simpl in *; lia|exact I|];
                eexists _, _; split; [exact R|split; [simpl; lia|intros [H|H]; discriminate]] end).
       + (* IDENT *)
         cbn [nxt tl].
-        match goal with |- context [Augment.run _ _ _ (MFLLoop ?e ?n) ?s2 acc] =>
+        match goal with |- context [Augment.arun _ _ _ (MFLLoop ?e ?n) ?s2 acc] =>
           assert (length s2 <= length s') as L2 by (destruct (kcur s'); rewrite ?nxt_len; lia);
           destruct (CALL (MFLLoop e n) s2 acc) as [s1 [a1 [R [L1 _]]]]; [simpl in *; lia|exact I|];
           eexists _, _; split; [exact R|split; [simpl; lia|intros [H|H]; discriminate]] end.
       + (* ELLIPSIS *)
         cbn [nxt tl]. destruct (kcur s');
-        match goal with |- context [Augment.run _ _ _ (MFLLoop ?e ?n) s' acc] =>
+        match goal with |- context [Augment.arun _ _ _ (MFLLoop ?e ?n) s' acc] =>
           destruct (CALL (MFLLoop e n) s' acc) as [s1 [a1 [R [L1 _]]]]; [simpl in *; lia|exact I|];
           eexists _, _; split; [exact R|split; [simpl; lia|intros [H|H]; discriminate]] end.
       + (* FUNC *)
@@ -123,7 +123,7 @@ Section T.
       cbn [nxt tl]. pose proof (skip_group_len s') as SG.
       destruct (kcur s') eqn:K2;
         try (eexists _, _; split; [reflexivity|split; [simpl; lia|intros [H|H]; discriminate]]);
-        match goal with |- context [Augment.run _ _ _ MImports ?s2 acc] =>
+        match goal with |- context [Augment.arun _ _ _ MImports ?s2 acc] =>
           assert (length s2 <= length s') as L2 by (rewrite ?nxt_len; lia);
           destruct (CALL MImports s2 acc) as [s3 [a3 [R [L3 _]]]]; [simpl in *; lia|exact I|];
           eexists _, _; split; [exact R|split; [simpl; lia|intros [H|H]; discriminate]] end.
